@@ -250,6 +250,10 @@ pub fn all_panicked_tasks() -> Vec<(usize, String, String, u32, String)> {
 
 /// strip the checkout prefix and line number so that signatures survive unrelated edits
 pub fn panic_site(file: &str, message: &str) -> String {
+    if message.starts_with("simulator: livelock") {
+        // not a panic of the code under test: the executor stopped a task that never yielded (see simcore LIVELOCK_OPS)
+        return "livelock-task-never-yields".to_string();
+    }
     let f = file.rsplit_once("/ohkami/src/").map(|(_, b)| format!("ohkami/src/{b}")).unwrap_or_else(|| {
         file.rsplit_once("/ohkami_lib/src/").map(|(_, b)| format!("ohkami_lib/src/{b}")).unwrap_or_else(|| {
             // registry crates: keep crate dir + file
